@@ -9,6 +9,8 @@ HERE = os.path.dirname(os.path.dirname(os.path.abspath(__file__)))
 def main():
     pid = sys.argv[1]
     wt = sys.argv[2] if len(sys.argv) > 2 else "/tmp/seed/" + pid
+    X, Y = (sys.argv[3], sys.argv[4]) if len(sys.argv) > 4 else ("A", "B")
+    avoid = sys.argv[5] if len(sys.argv) > 5 else ""
     prop = None
     for l in open(os.path.join(HERE, "properties.jsonl")):
         p = json.loads(l)
@@ -28,11 +30,11 @@ This is a semantic property the library is supposed to have:
   {prop['statement']}
   (Quantification: {prop['quantifier']['text']})
 
-TASK. Produce TWO independent, realistic code changes (call them A and B, at different places in the non-test source of the library) each of which BREAKS this property while the library still compiles and still passes the existing tests. "Realistic" means the kind of slip a maintainer could make in a refactor, optimisation or feature patch (an off-by-one at a boundary, a dropped case, a wrong variable, a missing reset of state, a swapped argument, an unchecked edge condition) - not sabotage that ordinary use would expose at once. Each change must need something specific to manifest: an unusual input or boundary value, a multi-step sequence of calls, a fault at a particular point, or two cooperating sites that each look fine alone. Keep each change small (a few lines). Do not edit existing *_test.go files, go.mod, or anything outside {wt}.
+TASK. Produce TWO independent, realistic code changes (call them {X} and {Y}, at different places in the non-test source of the library) each of which BREAKS this property while the library still compiles and still passes the existing tests. "Realistic" means the kind of slip a maintainer could make in a refactor, optimisation or feature patch (an off-by-one at a boundary, a dropped case, a wrong variable, a missing reset of state, a swapped argument, an unchecked edge condition) - not sabotage that ordinary use would expose at once. Each change must need something specific to manifest: an unusual input or boundary value, a multi-step sequence of calls, a fault at a particular point, or two cooperating sites that each look fine alone. Keep each change small (a few lines).{(" Other testers have already changed these places; choose different functions: " + avoid + ".") if avoid else ""} Do not edit existing *_test.go files, go.mod, or anything outside {wt}.
 
 For each change deliver, in {wt}/_out/ :
-  - A.diff / B.diff : the change as a unified diff made with `git -C {wt} diff -- . ':!_out'` when ONLY that change is applied (so it applies with `git apply` to a clean checkout). Source files only - the demonstration is separate.
-  - A_demo_test.go / B_demo_test.go : a demonstration - a Go test file for package ion (it will be copied into {wt}/ion/ to run; name the test functions TestSeedA... / TestSeedB...) or, for cmd/ion-go, a test file for that package - that FAILS with the change applied and PASSES on the unchanged code. It must show the property being violated (wrong value read back, missing error, panic, etc.), not just a difference in an internal detail.
+  - {X}.diff / {Y}.diff : the change as a unified diff made with `git -C {wt} diff -- . ':!_out'` when ONLY that change is applied (so it applies with `git apply` to a clean checkout). Source files only - the demonstration is separate.
+  - {X}_demo_test.go / {Y}_demo_test.go : a demonstration - a Go test file for package ion (it will be copied into {wt}/ion/ to run; name the test functions TestSeed{X}... / TestSeed{Y}...) or, for cmd/ion-go, a test file for that package - that FAILS with the change applied and PASSES on the unchanged code. It must show the property being violated (wrong value read back, missing error, panic, etc.), not just a difference in an internal detail.
   - notes.md : for each change: what it breaks, why the existing tests do not notice, what it needs in order to manifest, and the exact commands you ran with their results: (1) full suite with the change applied (same 7 failures only), (2) the demo failing with the change, (3) the demo passing without it.
 
 Verify all of that yourself before finishing. Leave the worktree clean of your changes at the end (git -C {wt} checkout -- . ; remove any demo files you copied into ion/), keeping only the _out/ directory (the leading underscore keeps the go tool from treating it as a package). Your final message should summarise the two changes in a few lines each.""")
